@@ -1,10 +1,48 @@
-import TjdModel.Agg.Simplex
+/-
+  C04 — Non-conflicting aggregators never oppose any objective.
+
+  PROPERTY THEOREMS ONLY.  UPGrad / DualProj: see `dualproj_nonconflict`, `upgrad_nonconflict` in
+  TjdProps/C03.lean (primal feasibility of the projection gives the allowance `reg_eps·s²·w_i`).
+  Here: MGDA (allowance in terms of the sub-optimality, and the Frank–Wolfe rate 8 s²/(K+2)).
+  CAGrad's non-conflict rests on the optimality of the conic solver's answer (kernel): not proved; the
+  check evaluates the predicate on the implementation (see DESIGN §8).
+-/
+import Mathlib.Algebra.Order.Field.Basic
+import TjdModel.Agg.Spec2
+import TjdLemmas.FWLemmas
 namespace Tjd.Props.C04
 open Tjd Tjd.Agg
 
-theorem minNormCheck_len {α : Type} [Zero α] [Add α] [Mul α] [One α] [LE α] [DecidableLE α] [DecidableEq α]
-    (G : Mat α) (a : Vec α) (h : minNormCheck G a = true) : a.length = G.length := by
-  simp [minNormCheck] at h
-  exact h.1.1.1
+variable {α : Type} [Field α] [LinearOrder α] [IsStrictOrderedRing α]
+
+/-- the certificate of the min-norm search characterises the minimum of `αᵀGα` on the simplex -/
+theorem minnorm_certificate (G : Mat α) (m : Nat) (hG : SymmSquare G m) (hpsd : PosSemidef G m)
+    (a : Vec α) (h : minNormCheck G a = true) :
+    InSimplex a m ∧ ∀ b, InSimplex b m → qf G a ≤ qf G b := by
+  sorry
+
+/-- MGDA, allowance: for ANY convex combination `x = Jᵀα` and the minimum-norm point `g* = Jᵀa*` of the
+    hull, `⟨j_i, x⟩ ≥ -|j_i| sqrt(|x|² - |g*|²)`; stated without square roots. (`|j_i| ≤ s`.) -/
+theorem mgda_nonconflict (J : Mat α) (m n : Nat) (hJ : MatWF J m n) (a astar : Vec α)
+    (ha : InSimplex a m) (hstar : minNormCheck (gram J) astar = true) (i : Nat) (hi : i < m)
+    (hneg : dot (J.getD i []) (combine n J a) < 0) :
+    dot (J.getD i []) (combine n J a) * dot (J.getD i []) (combine n J a) ≤
+      dot (J.getD i []) (J.getD i []) * (qf (gram J) a - qf (gram J) astar) := by
+  sorry
+
+/-- FRANK–WOLFE RATE: with `epsilon = 0` (no early stop), after `K ≥ 1` iterations the sub-optimality is
+    at most `8 s² / (K + 2)`, where `s²` bounds the Gramian (`vᵀGv ≤ s² |v|²`: `s` = largest singular
+    value of `J`) -/
+theorem mgda_fw_rate (G : Mat α) (m : Nat) (hm : 0 < m) (hG : SymmSquare G m) (hpsd : PosSemidef G m)
+    (s2 : α) (hs : ∀ v : Vec α, v.length = m → qf G v ≤ s2 * dot v v) (K : Nat) (hK : 1 ≤ K)
+    (b : Vec α) (hb : InSimplex b m) :
+    qf G (mgdaWeights G m (1 / (m : α)) 0 K).1 - qf G b ≤ 8 * s2 / ((K : α) + 2) := by
+  sorry
+
+/-- the abstract recurrence behind the rate -/
+theorem fw_recurrence (h : Nat → α) (C : α) (hC : 0 ≤ C)
+    (hstep : ∀ k, ∀ γ : α, 0 ≤ γ → γ ≤ 1 → h (k + 1) ≤ (1 - γ) * h k + γ * γ * C / 2)
+    (k : Nat) (hk : 1 ≤ k) : h k ≤ 2 * C / ((k : α) + 2) := by
+  sorry
 
 end Tjd.Props.C04
